@@ -48,10 +48,14 @@ class Objective:
         if f == "offset":
             # large constant plus a tiny bowl: neighbouring values differ by ~1e-8 relative (tolerance-based
             # comparisons such as isclose() cannot tell them apart, exact ones can)
-            return 1000.0 + 1e-4 * float(np.sum(u * u))
+            return 1000.0 + self.const * float(np.sum(u * u))  # const = amplitude (1e-4 or 1e-7)
         if f == "infwall":
             # an infeasibility penalty: the worst possible value on part of the box (sign-aware through `sign`)
             return float("inf") if u[0] > 0.2 else float(np.sum(u * u))
+        if f == "infpit":
+            # an objective that is unbounded in the GOOD direction on part of the box (a log barrier, a bug in user code):
+            # -inf for the base problem, i.e. the best possible value in either direction after the sign is applied
+            return float("-inf") if u[0] < -0.3 else float(np.sum(u * u))
         if f == "nanhole":
             # undefined (NaN) on part of the box - only used where a property's domain includes such objectives (C19)
             return float("nan") if u[0] < -0.1 else float(np.sum(u * u))
@@ -123,6 +127,7 @@ S_POP = st.integers(4, 12)
 S_GENS = st.sampled_from([1, 1, 2, 2, 3])
 S_KEL = st.integers(1, 3)
 S_PMUT = st.sampled_from([1.0, 1.0, 0.5, 0.2])
+S_PMUT_LOW = st.sampled_from([1.0, 0.5, 0.2, 0.05, 0.0])
 S_PCROSS = st.sampled_from([0.0, 0.7, 1.0])
 S_STDFRAC = st.sampled_from([0.02, 0.05, 0.1, 0.2, 0.3])
 S_SAMPLEFRAC = st.sampled_from([0.01, 0.05, 0.1, 0.2, 0.3])
@@ -167,6 +172,8 @@ def objectives(draw, box, families):
     o = {"family": fam, "center": center}
     if fam == "constant":
         o["const"] = draw(st.sampled_from([0.0, 1.0, -2.5]))
+    if fam == "offset":
+        o["const"] = draw(st.sampled_from([1e-4, 1e-7]))  # neighbouring values agree to ~1e-8 / ~1e-11 relative
     if fam == "linear":
         o["weights"] = [draw(st.sampled_from([1.0, -1.0, 0.5])) for _ in box]
     return o
@@ -206,10 +213,12 @@ def level_cfgs(draw, idx: int, nlevels: int, prof: dict):
     gens = max(gens, prof.get("min_generations", 1))
     lv = {"engine": eng, "generations": gens}
     lv["pop_size"] = draw(S_POP)
+    if prof.get("small_pops") and (eng in SEA_ENGINES or eng in ("LHS", "Sobol", "Custom")) and draw(st.integers(0, 3)) == 0:
+        lv["pop_size"] = draw(st.integers(1, 3))  # legal for the SEA family and the samplers (DE/SHADE need 4, MWEA its group)
     lv["sample_std_frac"] = draw(S_SAMPLEFRAC)
     if eng in SEA_ENGINES or eng == "MWEA":
         lv["k_elites"] = draw(S_KEL)
-        lv["p_mutation"] = draw(S_PMUT)
+        lv["p_mutation"] = draw(S_PMUT_LOW if prof.get("pmut_low") else S_PMUT)
         lv["mutation_std_frac"] = draw(S_STDFRAC)
         if eng in ("SEAWithCrossover", "GAStyleSEA"):
             lv["p_crossover"] = draw(S_PCROSS)
@@ -351,6 +360,13 @@ def scenarios(draw, prof: dict | None = None):
             sc["levels"][0]["wrappers"] = sc["levels"][0]["wrappers"][:1] + ["precision"]
     sc["cap"] = draw(S_CAP) if "cap" not in prof else draw(st.integers(*prof["cap"]))
     sc["sprout"] = draw(sprouts(box, nlevels, prof))
+    # nearest-better clustering needs at least two individuals after truncation: tiny populations only where nothing clusters them
+    sp = sc["sprout"]
+    uses_nbc = sp["kind"] == "nbc" or (sp["kind"] == "composed" and sp["generator"]["kind"] in ("NBC", "NBCLocal"))
+    if uses_nbc:
+        for lv in sc["levels"][:-1]:
+            if lv["pop_size"] < 4:
+                lv["pop_size"] = 4
     hp = prof.get("hibernation")
     sc["options"] = {"random_seed": draw(S_SEED), "hibernation": (draw(S_BOOL) if hp is None else (draw(st.integers(0, 9)) < hp * 10))}
     sc["cutoff"] = draw(st.integers(1, max(2, 6 * approx)))
